@@ -5,6 +5,7 @@ import (
 	"go/ast"
 	"go/token"
 	"go/types"
+	"strings"
 
 	"golang.org/x/tools/go/packages"
 
@@ -382,6 +383,7 @@ func checkC04(c *core.Ctx) error {
 	}
 	checkInverseRun(c, d)
 	checkDeterminantRun(c, d)
+	checkPermutedRows(c)
 	return nil
 }
 
@@ -577,4 +579,90 @@ func checkInverseRun(c *core.Ctx, d *declIndex) {
 			}
 		}
 	}
+}
+
+// checkPermutedRows (C04.R6): the pivoting routines never move rows; they keep a row permutation p and address row r of
+// every operand as p[r]. In a function that swaps entries of such a permutation, every element access to the working
+// matrices and the right-hand side therefore has a row index of the form p[...]: an access with a plain index reads the
+// row that was at that position before the exchanges (the pivot search then compares against the wrong row and can keep
+// a zero pivot although a non-zero candidate exists).
+func checkPermutedRows(c *core.Ctx) {
+	c.Rule("C04.R6", "pivoting Gauss-Jordan: every row index of an element access is taken through the row permutation", 40)
+	p := c.Pkg("algorithm/gaussJordan")
+	if p == nil {
+		c.Unknown("C04.R6", "algorithm/gaussJordan", "package loaded", token.NoPos, "not loaded")
+		return
+	}
+	info := p.TypesInfo
+	core.EachFunc(p, func(_ *ast.File, fd *ast.FuncDecl) {
+		// the permutation: a slice of ints whose entries are swapped
+		var perm types.Object
+		ast.Inspect(fd.Body, func(n ast.Node) bool {
+			as, ok := n.(*ast.AssignStmt)
+			if !ok || len(as.Lhs) != 2 || len(as.Rhs) != 2 {
+				return true
+			}
+			l0, ok0 := as.Lhs[0].(*ast.IndexExpr)
+			l1, ok1 := as.Lhs[1].(*ast.IndexExpr)
+			if !ok0 || !ok1 {
+				return true
+			}
+			if types.ExprString(l0) == types.ExprString(as.Rhs[1]) && types.ExprString(l1) == types.ExprString(as.Rhs[0]) {
+				if id, ok := l0.X.(*ast.Ident); ok {
+					if sl, ok := info.TypeOf(id).Underlying().(*types.Slice); ok {
+						if b, ok := sl.Elem().Underlying().(*types.Basic); ok && b.Info()&types.IsInteger != 0 {
+							perm = info.Uses[id]
+						}
+					}
+				}
+			}
+			return true
+		})
+		if perm == nil {
+			return
+		}
+		cons := c.FuncName(p, fd)
+		// operands: parameters of matrix/vector type
+		operands := map[types.Object]bool{}
+		for _, f := range fd.Type.Params.List {
+			for _, nm := range f.Names {
+				o := info.Defs[nm]
+				tn := namedOfType(o.Type())
+				if strings.HasSuffix(tn, "Matrix") || strings.HasSuffix(tn, "Vector") {
+					operands[o] = true
+				}
+			}
+		}
+		k := 0
+		ast.Inspect(fd.Body, func(n ast.Node) bool {
+			ce, ok := n.(*ast.CallExpr)
+			if !ok || len(ce.Args) == 0 {
+				return true
+			}
+			sel, ok := ce.Fun.(*ast.SelectorExpr)
+			if !ok {
+				return true
+			}
+			switch sel.Sel.Name {
+			case "At", "AT", "ConstAt", "MagicAt":
+			default:
+				return true
+			}
+			id, ok := ast.Unparen(sel.X).(*ast.Ident)
+			if !ok || !operands[info.Uses[id]] {
+				return true
+			}
+			row := ast.Unparen(ce.Args[0])
+			ok2 := false
+			if ix, isIx := row.(*ast.IndexExpr); isIx {
+				if b, isId := ast.Unparen(ix.X).(*ast.Ident); isId && info.Uses[b] == perm {
+					ok2 = true
+				}
+			}
+			k++
+			c.Check(ok2, "C04.R6", cons, fmt.Sprintf("access #%d %s", k, types.ExprString(ce)), ce.Pos(),
+				"the row index "+types.ExprString(row)+" is not taken through the row permutation "+perm.Name()+": after a row exchange this addresses a different row than every other access of the routine")
+			return true
+		})
+	})
 }
